@@ -37,6 +37,7 @@ type Obligation struct {
 	Script  string
 	Status  string // discharged refuted undecided
 	Solver  string
+	Second  string // thorough tier: solver of another family that also answered unsat
 	Time    float64
 	Model   string
 	Output  string
